@@ -400,4 +400,10 @@ theorem layoutKeys_cons (c : Nat) (v : Value) (vs : List Value) (bs : Bytes) (hs
   simp only [layoutKeys, hs]
 
 
+theorem intVal_ofInt (k : Kind) (t lo hi : Int) (hr : k.intRange = some (lo, hi)) (h1 : lo ≤ t) :
+    (Value.ofInt k t).intVal = some t := by
+  cases k <;> simp only [Kind.intRange, Option.some.injEq, Prod.mk.injEq, reduceCtorEq] at hr <;>
+    simp only [Value.ofInt, Value.intVal, Option.some.injEq] <;> omega
+
+
 end AxVerif.Value
